@@ -1,8 +1,69 @@
 (* C17 - Quoting is a bijection that never emits a field separator.
-   This file holds only theorem statements closed by [exact]; proofs are in Proofs/Quote.v. *)
+   This file holds only theorem statements closed by [exact]; proofs are in
+   Proofs/Utf8.v and Proofs/Quote.v.  [oracle] is strconv.IsPrint on runes >= 0x80
+   (any function); [wf_bytes b] says every element of b is a byte (< 256).
+   44 = comma, 58 = colon, 10 = newline. *)
 From DnsV Require Import Model.Quote Proofs.Quote.
 Open Scope N_scope.
+
+(* Bunquote (Bquote b) = b, nil error, for every byte string *)
+Theorem C17_roundtrip : forall oracle b, wf_bytes b -> bunquote (bquote oracle b) = Ok b.
+Proof. exact bquote_roundtrip. Qed.
+Print Assumptions C17_roundtrip.
+
+(* the quoted form contains no comma, no colon, no newline *)
+Theorem C17_no_separator : forall oracle b, wf_bytes b ->
+  contains 44 (bquote oracle b) = false /\ contains 58 (bquote oracle b) = false /\
+  contains 10 (bquote oracle b) = false.
+Proof. exact bquote_no_separator. Qed.
+Print Assumptions C17_no_separator.
+
+(* a data-file line: the quoted fields joined by the separator (comma or colon).
+   Splitting the line on the separator gives back exactly the quoted fields, each
+   field unquotes to the original, and (with at least two fields) the separator
+   detection of dnsdata.fields finds this separator first.  SplitN's limit of 15
+   fields and the leading record-type byte are not part of this statement. *)
+Theorem C17_fields_roundtrip : forall oracle sep fs, sep = 44 \/ sep = 58 -> fs <> [] ->
+  Forall wf_bytes fs ->
+  let line := join_sep sep (map (bquote oracle) fs) in
+  split_on sep line [] = map (bquote oracle) fs /\
+  map bunquote (split_on sep line []) = map Ok fs /\
+  ((2 <= length fs)%nat -> first_sep line = Some sep).
+Proof. exact fields_roundtrip. Qed.
+Print Assumptions C17_fields_roundtrip.
 
 Theorem C17_unhex_hexdigit : forall n, n < 16 -> unhex (hexdigit n) = Some n.
 Proof. exact unhex_hexdigit. Qed.
 Print Assumptions C17_unhex_hexdigit.
+
+(* UTF-8: decoding the encoding of a valid non-ASCII rune returns it with its width *)
+Theorem C17_utf8_decode_encode : forall r X, 128 <= r -> valid_rune r = true ->
+  decode_rune (encode_rune r ++ X) = (r, length (encode_rune r)).
+Proof. exact Proofs.Utf8.decode_encode. Qed.
+Print Assumptions C17_utf8_decode_encode.
+
+(* UTF-8: a byte sequence that DecodeRune accepts with width >= 2 is the encoding of the
+   rune it returns; otherwise DecodeRune returns (RuneError, 1) *)
+Theorem C17_utf8_encode_decode : forall b0 t r w, 128 <= b0 -> decode_rune (b0 :: t) = (r, w) ->
+  (w = 1%nat /\ r = rune_error) \/
+  ((2 <= w)%nat /\ 128 <= r /\ valid_rune r = true /\ length (encode_rune r) = w /\
+   b0 :: t = encode_rune r ++ skipn w (b0 :: t)).
+Proof. exact Proofs.Utf8.decode_rune_spec. Qed.
+Print Assumptions C17_utf8_encode_decode.
+
+(* non-trivial instances: a string with comma, colon, quote, backslash, newline, NUL,
+   DEL, a valid 2-byte rune (printable per this oracle), U+FFFD, a 4-byte rune (not printable), invalid
+   bytes 0xff 0xc0 and a truncated sequence *)
+Example C17_example :
+  let oracle := fun r => r =? 233 in
+  let b := [97; 44; 58; 34; 92; 10; 0; 127; 195; 169; 239; 191; 189; 240; 159; 152; 128; 255; 192; 226; 130] in
+  wf_bytes b /\
+  bquote oracle b =
+    [97; 92;48;53;52; 92;48;55;50; 34; 92;92; 92;110; 92;120;48;48; 92;120;55;102; 195;169;
+     92;117;102;102;102;100; 92;85;48;48;48;49;102;54;48;48; 92;120;102;102; 92;120;99;48;
+     92;120;101;50; 92;120;56;50] /\
+  bunquote (bquote oracle b) = Ok b /\
+  split_on 44 (join_sep 44 (map (bquote oracle) [b; []; [44; 44]])) [] =
+    [bquote oracle b; []; [92;48;53;52; 92;48;53;52]].
+Proof. exact quote_example. Qed.
+Print Assumptions C17_example.
